@@ -233,6 +233,72 @@ Definition th_run (ops : list th_op) : th_st := fold_left th_step ops (mkTh 0 0)
 Fixpoint th_cycles (n : nat) : list th_op :=
   match n with O => [] | S m => ThConnect :: ThDisconnect :: th_cycles m end.
 
+(* ================================================================== 4b. a request wakes the output thread (rfbserver.c, main.c)
+   thread 0 = application: ONE framebuffer operation (kind 0: rfbMarkRectAsModified -> modifiedRegion, TSIGNAL;
+              kind 1: rfbDoCopyRect -> copyRegion, TSIGNAL; kind 2: cursor moved/replaced -> cursor flag, no signal)
+   thread 1 = clientInput handling one FramebufferUpdateRequest: LOCK(updateMutex); requestedRegion |= r;
+              TSIGNAL(updateCond); UNLOCK  (faithful: the signal is unconditional;
+              variant "only_if_modified": signal only when modifiedRegion is non-empty)
+   thread 2 = clientOutput: LOCK; if requested and FB_UPDATE_PENDING (modified, copy or cursor) then send
+              else WAIT(updateCond) *)
+Record rq_st := mkRq {
+  rq_req : bool; rq_mod : bool; rq_copy : bool; rq_cur : bool;
+  rq_um : nat; rq_wait : bool; rq_sent : bool;
+  rq_pcA : nat; rq_pcI : nat; rq_pcO : nat
+}.
+Scheme Equality for rq_st.
+
+Definition rq_upd (req md cp cu : bool) (um : nat) (w sent : bool) (s : rq_st) : rq_st :=
+  mkRq req md cp cu um w sent (rq_pcA s) (rq_pcI s) (rq_pcO s).
+Definition rq_pc (t : nat) (s : rq_st) : nat := match t with 0 => rq_pcA s | 1 => rq_pcI s | _ => rq_pcO s end.
+Definition rq_setpc (t v : nat) (s : rq_st) : rq_st :=
+  match t with
+  | 0 => mkRq (rq_req s) (rq_mod s) (rq_copy s) (rq_cur s) (rq_um s) (rq_wait s) (rq_sent s) v (rq_pcI s) (rq_pcO s)
+  | 1 => mkRq (rq_req s) (rq_mod s) (rq_copy s) (rq_cur s) (rq_um s) (rq_wait s) (rq_sent s) (rq_pcA s) v (rq_pcO s)
+  | _ => mkRq (rq_req s) (rq_mod s) (rq_copy s) (rq_cur s) (rq_um s) (rq_wait s) (rq_sent s) (rq_pcA s) (rq_pcI s) v
+  end.
+Definition rq_pending (s : rq_st) : bool := rq_mod s || rq_copy s || rq_cur s.
+
+Definition rq_step (only_if_modified : bool) (kind : nat) (t : nat) (s : rq_st) : option rq_st :=
+  let next := rq_setpc t (S (rq_pc t s)) in
+  match t with
+  | 0 =>
+    match kind with
+    | 2 => match rq_pcA s with
+           | 0 => Some (next (rq_upd (rq_req s) (rq_mod s) (rq_copy s) true (rq_um s) (rq_wait s) (rq_sent s) s))
+           | _ => None
+           end
+    | _ => match rq_pcA s with
+           | 0 => if rq_um s =? 0 then Some (next (rq_upd (rq_req s) (rq_mod s) (rq_copy s) (rq_cur s) 1 (rq_wait s) (rq_sent s) s)) else None
+           | 1 => Some (next (rq_upd (rq_req s) (if kind =? 0 then true else rq_mod s) (if kind =? 0 then rq_copy s else true)
+                                     (rq_cur s) (rq_um s) false (rq_sent s) s))          (* region update + TSIGNAL *)
+           | 2 => Some (next (rq_upd (rq_req s) (rq_mod s) (rq_copy s) (rq_cur s) 0 (rq_wait s) (rq_sent s) s))
+           | _ => None
+           end
+    end
+  | 1 =>
+    match rq_pcI s with
+    | 0 => if rq_um s =? 0 then Some (next (rq_upd (rq_req s) (rq_mod s) (rq_copy s) (rq_cur s) 2 (rq_wait s) (rq_sent s) s)) else None
+    | 1 => Some (next (rq_upd true (rq_mod s) (rq_copy s) (rq_cur s) (rq_um s)
+                              (if only_if_modified && negb (rq_mod s) then rq_wait s else false) (rq_sent s) s))
+    | 2 => Some (next (rq_upd (rq_req s) (rq_mod s) (rq_copy s) (rq_cur s) 0 (rq_wait s) (rq_sent s) s))
+    | _ => None
+    end
+  | 2 =>
+    match rq_pcO s with
+    | 0 => if rq_um s =? 0 then Some (next (rq_upd (rq_req s) (rq_mod s) (rq_copy s) (rq_cur s) 3 (rq_wait s) (rq_sent s) s)) else None
+    | 1 => if rq_req s && rq_pending s
+           then Some (rq_setpc 2 3 (rq_upd false false false false 0 (rq_wait s) true s))            (* UNLOCK; send the update *)
+           else Some (next (rq_upd (rq_req s) (rq_mod s) (rq_copy s) (rq_cur s) 0 true (rq_sent s) s))  (* WAIT *)
+    | 2 => if rq_wait s then None else Some (rq_setpc 2 0 s)                                           (* woken: loop *)
+    | 3 => Some (rq_setpc 2 0 s)
+    | _ => None
+    end
+  | _ => None
+  end.
+Definition rq_init : rq_st := mkRq false false false false 0 false false 0 0 0.
+Definition rq_rr : list nat := concat (repeat [0; 1; 2] 16).
+
 (* ================================================================== 5. lock order
    mutex classes, numbered by their rank: sendMutex of the client at list position k,
    screen->cursorMutex, updateMutex k, rfbClientListMutex, refCountMutex k, outputMutex k *)
